@@ -13,6 +13,7 @@ import GooseVerif.Lemmas.Tr
 import GooseVerif.Props.C01Core
 import GooseVerif.Props.C01Heap
 import GooseVerif.Props.C02Tuple
+import GooseVerif.Props.C02Conv
 import GooseVerif.Gen.Guards
 import GooseVerif.Expected.Guards
 
